@@ -674,6 +674,9 @@ nni_aio_expire_loop(void *arg)
 
 		next = q->eq_next;
 		now  = nni_clock();
+#ifdef NNG_VERIF
+		nni_verif_expire_scan_inc();
+#endif
 
 		// Each time we wake up, we scan the entire list of elements.
 		// We scan forward, moving up to NNI_EXPIRE_Q_SIZE elements
